@@ -430,7 +430,7 @@ type c02MonSpec struct {
 	id     int
 	kind   int
 	keep   bool
-	flt    int // 0 none, 1 jqFilter, 2 FilterFunc
+	flt    int      // 0 none, 1 jqFilter, 2 FilterFunc
 	prog   *c02Prog // the jqFilter program (nil = the legacy one; FilterFunc always computes the legacy one)
 	names  []int
 	nss    []int
